@@ -120,7 +120,10 @@ class AutomatonStepper:
 
     def init(self):
         """Return initial values of variables for this component."""
-        r = self.aut.pick(self._init)
+        # pick values for all the variables of this component,
+        # also for those that the initial condition leaves unconstrained
+        r = self.aut.pick(
+            self._init, care_vars=self.aut.varlist['impl'])
         return {k: v for k, v in r.items() if k in self.aut.varlist['impl']}
 
     def step(self, state):
